@@ -58,6 +58,39 @@ func (st *State) univariate(cond *smt.Term) (v *smt.Term, tmask, fmask [4]uint64
 	return v, tmask, fmask, true
 }
 
+// domainTerm renders "v ∈ mask" compactly as a disjunction of intervals.
+func (st *State) domainTerm(v *smt.Term, m [4]uint64) *smt.Term {
+	c := st.c
+	acc := c.False
+	in := func(x int) bool { return x < 256 && m[x>>6]&(1<<(uint(x)&63)) != 0 }
+	for x := 0; x < 256; {
+		if !in(x) {
+			x++
+			continue
+		}
+		y := x
+		for in(y + 1) {
+			y++
+		}
+		var iv *smt.Term
+		switch {
+		case x == y:
+			iv = c.Eq(v, c.Const(uint64(x), 8))
+		case x == 0 && y == 255:
+			iv = c.True
+		case x == 0:
+			iv = c.Ule(v, c.Const(uint64(y), 8))
+		case y == 255:
+			iv = c.Ule(c.Const(uint64(x), 8), v)
+		default:
+			iv = c.BAnd(c.Ule(c.Const(uint64(x), 8), v), c.Ule(v, c.Const(uint64(y), 8)))
+		}
+		acc = c.BOr(acc, iv)
+		x = y + 1
+	}
+	return acc
+}
+
 func nonEmpty(m [4]uint64) bool { return m[0]|m[1]|m[2]|m[3] != 0 }
 
 // feasible asks whether pathcond ∧ cond is satisfiable. unknown counts as
@@ -86,6 +119,7 @@ func (st *State) feasible(cond *smt.Term) bool {
 }
 
 var intDumpN int
+var traceDec = os.Getenv("GOSYM_TRACE") != ""
 
 // intQuery decides pathcond ∧ extra on the integer translation (one-shot z3,
 // then cvc5). Unknown when the translation is not applicable.
@@ -154,6 +188,23 @@ func (st *State) branch(cond *smt.Term, label string) bool {
 		}
 		st.end("ABORT", "symbolic branch in concrete mode: %v", cond)
 	}
+	if !st.w.Opt.NoFast {
+		if val, ok := st.intervalDecide(cond, 0); ok {
+			st.w.Stats.IntervalDecided++
+			if st.w.Opt.CrossCheck && st.live() {
+				st.w.Stats.CrossChecked++
+				want := cond
+				if val {
+					want = st.c.BNot(cond)
+				}
+				if r := st.w.Solver.Check(want); r == smt.Sat {
+					st.w.Stats.CrossMismatch++
+					fmt.Fprintf(os.Stderr, "CROSSCHECK MISMATCH (interval) on %v: interval=%v\n", cond, val)
+				}
+			}
+			return val
+		}
+	}
 	ncond := st.c.BNot(cond)
 	v, tmask, fmask, uni := st.univariate(cond)
 	if st.replaying() {
@@ -162,6 +213,11 @@ func (st *State) branch(cond *smt.Term, label string) bool {
 			panic("replay mismatch: expected 2-way Decision, plan has " + fmt.Sprint(d.n) + " at " + st.curPos())
 		}
 		d.conds = []*smt.Term{cond, ncond}
+		if uni {
+			d.conds = []*smt.Term{st.domainTerm(v, tmask), st.domainTerm(v, fmask)}
+		} else {
+			st.multiVar = true
+		}
 		st.takeDecision(d)
 		if uni {
 			if d.chosen == 0 {
@@ -173,10 +229,23 @@ func (st *State) branch(cond *smt.Term, label string) bool {
 		return d.chosen == 0
 	}
 	st.w.Stats.Decisions++
+	if traceDec {
+		fmt.Fprintf(os.Stderr, "DEC #%d %s uni=%v at %s: %v\n", len(st.decs), label, uni, st.curPos(), cond)
+	}
 	var ft, ff bool
 	if uni {
 		st.w.Stats.FastDecided++
 		ft, ff = nonEmpty(tmask), nonEmpty(fmask)
+		if ft && ff && st.multiVar {
+			// the byte's own domain allows both sides, but constraints relating it to
+			// other variables may not: confirm with the solver
+			ft = st.feasible(cond)
+			if !ft {
+				ff = true
+			} else {
+				ff = st.feasible(ncond)
+			}
+		}
 		if st.w.Opt.CrossCheck {
 			st.w.Stats.CrossChecked++
 			zt, zf := st.w.Solver.Check(cond), st.w.Solver.Check(ncond)
@@ -192,11 +261,19 @@ func (st *State) branch(cond *smt.Term, label string) bool {
 		} else {
 			ff = st.feasible(ncond)
 		}
+		st.multiVar = true
 	}
 	if !ft && !ff {
 		st.end("INFEASIBLE", "both sides of a branch infeasible")
 	}
+	if traceDec && ft && ff {
+		fmt.Fprintf(os.Stderr, "FORK %s\n", st.curPos())
+	}
 	d := Decision{n: 2, feas: []bool{ft, ff}, conds: []*smt.Term{cond, ncond}, label: label}
+	if uni {
+		// the solver sees the refined domain, not the (possibly table-shaped) condition
+		d.conds = []*smt.Term{st.domainTerm(v, tmask), st.domainTerm(v, fmask)}
+	}
 	if ft {
 		d.chosen = 0
 	} else {
@@ -256,7 +333,7 @@ func (st *State) assume(cond *smt.Term) {
 			st.end("ASSUME", "assumption unsatisfiable")
 		}
 		st.refine(v, tmask)
-		st.assertAtLevel(cond)
+		st.assertAtLevel(st.domainTerm(v, tmask))
 		return
 	}
 	if st.live() {
@@ -264,6 +341,7 @@ func (st *State) assume(cond *smt.Term) {
 			st.end("ASSUME", "assumption unsatisfiable")
 		}
 	}
+	st.multiVar = true
 	st.assertAtLevel(cond)
 }
 
@@ -383,19 +461,21 @@ func (st *State) model(extra ...*smt.Term) (smt.Result, map[string]uint64) {
 		}
 	}
 	st.w.Stats.SolverChecks++
-	if st.w.Opt.IntFirst {
+	intFirst := st.w.Opt.IntFirst || (st.w.Opt.IntAssert && len(extra) > 0)
+	if intFirst {
 		if r, m := st.intQuery(true, extra...); r != smt.Unknown {
 			return r, m
 		}
 	}
 	r, m := st.w.Solver.CheckModel(vars, extra...)
-	if r == smt.Unknown && !st.w.Opt.IntFirst {
+	if r == smt.Unknown && !intFirst {
 		r, m = st.intQuery(true, extra...)
 	}
 	return r, m
 }
 
-func (st *State) recordFail(id, kind, msg string, extra ...*smt.Term) {
+func (st *State) recordFail(id, kind, msg string, extra ...*smt.Term) (reachable bool) {
+	reachable = true
 	f := AssertFail{ID: id, Kind: kind, Msg: msg, Pos: st.curPos()}
 	if st.w.Opt.IsConcrete {
 		st.fails = append(st.fails, f)
@@ -404,7 +484,13 @@ func (st *State) recordFail(id, kind, msg string, extra ...*smt.Term) {
 	r, m := st.model(extra...)
 	switch r {
 	case smt.Unsat:
-		return // not actually reachable
+		if traceDec {
+			fmt.Fprintf(os.Stderr, "recordFail %s: unsat (path infeasible?) decs=%d live=%v\n", id, len(st.decs), st.live())
+			for i, d := range st.decs {
+				fmt.Fprintf(os.Stderr, "   dec %d %s chosen=%d feas=%v\n", i, d.label, d.chosen, d.feas)
+			}
+		}
+		return false // not actually reachable
 	case smt.Unknown:
 		f.Kind = "UNKNOWN-" + kind
 	default:
@@ -412,6 +498,7 @@ func (st *State) recordFail(id, kind, msg string, extra ...*smt.Term) {
 		f.Vector, f.Names = st.vector(m)
 	}
 	st.fails = append(st.fails, f)
+	return
 }
 
 // runPath executes the harness once along the plan prefix.
@@ -633,4 +720,92 @@ func concreteWorker(p *Program, loopCap, stepCap int) (*Worker, error) {
 	}
 	concWorkers[p] = w
 	return w, nil
+}
+
+// intervalDecide: three-valued evaluation of a condition by sound interval
+// analysis under the byte domains. ok=false when undetermined.
+func (st *State) intervalDecide(t *smt.Term, depth int) (val, ok bool) {
+	if depth > 6 {
+		return false, false
+	}
+	switch t.Op {
+	case smt.OpConst:
+		return t.V != 0, true
+	case smt.OpBNot:
+		v, ok := st.intervalDecide(t.A, depth+1)
+		return !v, ok
+	case smt.OpBAnd:
+		va, oka := st.intervalDecide(t.A, depth+1)
+		vb, okb := st.intervalDecide(t.B, depth+1)
+		if (oka && !va) || (okb && !vb) {
+			return false, true
+		}
+		if oka && okb {
+			return true, true
+		}
+	case smt.OpBOr:
+		va, oka := st.intervalDecide(t.A, depth+1)
+		vb, okb := st.intervalDecide(t.B, depth+1)
+		if (oka && va) || (okb && vb) {
+			return true, true
+		}
+		if oka && okb {
+			return false, true
+		}
+	case smt.OpUlt, smt.OpUle, smt.OpEq, smt.OpSlt, smt.OpSle:
+		if t.A.W == 0 {
+			return false, false
+		}
+		la, ha := urangeD(t.A, 0, st.domains)
+		lb, hb := urangeD(t.B, 0, st.domains)
+		switch t.Op {
+		case smt.OpUlt:
+			if ha < lb {
+				return true, true
+			}
+			if la >= hb {
+				return false, true
+			}
+		case smt.OpUle:
+			if ha <= lb {
+				return true, true
+			}
+			if la > hb {
+				return false, true
+			}
+		case smt.OpEq:
+			if ha < lb || hb < la {
+				return false, true
+			}
+			if la == ha && lb == hb && la == lb {
+				return true, true
+			}
+		case smt.OpSlt, smt.OpSle:
+			half := uint64(1) << (t.A.W - 1)
+			if ha < half && hb < half {
+				if t.Op == smt.OpSlt {
+					if ha < lb {
+						return true, true
+					}
+					if la >= hb {
+						return false, true
+					}
+				} else {
+					if ha <= lb {
+						return true, true
+					}
+					if la > hb {
+						return false, true
+					}
+				}
+			}
+			if la >= half && hb < half { // a negative, b non-negative
+				return true, true
+			}
+			if ha < half && lb >= half { // a non-negative, b negative
+				return false, true
+			}
+		}
+	}
+	return false, false
 }
